@@ -72,7 +72,7 @@ class SparseStream(io.RawIOBase):
         raise MemoryError('sparse stream has no materialised value')
 
 
-def sparse_elf(cls, le, sections, e_machine=62, e_type=3, osabi=0):
+def sparse_elf(cls, le, sections, e_machine=62, e_type=3, osabi=0, segments=(), shoff=None):
     """sections: list of dicts {'name', 'sh_type', 'offset', 'size', 'chunks': {rel_offset: bytes}, + other sh_* fields}; section 0 (null) and
     a final .shstrtab are added; the header table sits right behind the ELF header, the section name table behind it.
     -> (SparseStream, [section header dicts incl. null and .shstrtab])"""
@@ -80,8 +80,11 @@ def sparse_elf(cls, le, sections, e_machine=62, e_type=3, osabi=0):
     names = [''] + [s['name'] for s in sections] + ['.shstrtab']
     strtab, offs = W.build_strtab(names)
     nsec = len(sections) + 2
-    shoff = W.EHDR_SIZE[cls]
-    str_off = shoff + nsec * W.SHDR_SIZE[cls]
+    phoff = W.EHDR_SIZE[cls] if segments else 0
+    far_sh = shoff is not None         # the section header table itself may be placed far away
+    if not far_sh:
+        shoff = W.EHDR_SIZE[cls] + len(segments) * W.PHDR_SIZE[cls]
+    str_off = (W.EHDR_SIZE[cls] + len(segments) * W.PHDR_SIZE[cls]) if far_sh else shoff + nsec * W.SHDR_SIZE[cls]
     hdrs = [dict.fromkeys(W.SH_FIELDS, 0)]
     chunks = {}
     low = str_off + len(strtab)
@@ -100,7 +103,20 @@ def sparse_elf(cls, le, sections, e_machine=62, e_type=3, osabi=0):
     h.update(sh_name=offs['.shstrtab'], sh_type=3, sh_offset=str_off, sh_size=len(strtab), sh_addralign=1)
     hdrs.append(h)
     ident = b'\x7fELF' + bytes([1 if cls == 32 else 2, 1 if le else 2, 1, osabi]) + b'\0' * 8
-    eh = {'e_type': e_type, 'e_machine': e_machine, 'e_version': 1, 'e_entry': 0, 'e_phoff': 0, 'e_shoff': shoff, 'e_flags': 0,
-          'e_ehsize': W.EHDR_SIZE[cls], 'e_phentsize': 0, 'e_phnum': 0, 'e_shentsize': W.SHDR_SIZE[cls], 'e_shnum': nsec, 'e_shstrndx': nsec - 1}
-    chunks[0] = W.pack_ehdr(cls, le, ident, eh) + b''.join(W.pack_shdr(cls, le, x) for x in hdrs) + strtab
+    eh = {'e_type': e_type, 'e_machine': e_machine, 'e_version': 1, 'e_entry': 0, 'e_phoff': phoff, 'e_shoff': shoff, 'e_flags': 0,
+          'e_ehsize': W.EHDR_SIZE[cls], 'e_phentsize': W.PHDR_SIZE[cls] if segments else 0, 'e_phnum': len(segments),
+          'e_shentsize': W.SHDR_SIZE[cls], 'e_shnum': nsec, 'e_shstrndx': nsec - 1}
+    phs = []
+    for p in segments:
+        q = {k: 0 for k in W.PH_FIELDS}
+        q.update(p)
+        phs.append(q)
+    table = b''.join(W.pack_shdr(cls, le, x) for x in hdrs)
+    head = W.pack_ehdr(cls, le, ident, eh) + b''.join(W.pack_phdr(cls, le, q) for q in phs)
+    if far_sh:
+        chunks[0] = head + strtab
+        chunks[shoff] = table
+        total = max(total, shoff + len(table))
+    else:
+        chunks[0] = head + table + strtab
     return SparseStream(total, chunks), hdrs
